@@ -15,6 +15,8 @@ import common  # noqa: E402
 sys.path.insert(0, os.path.join(common.REPO, 'src'))
 os.environ.setdefault('IELIS_HPO_TOOLKIT_VERIF', '1')
 warnings.simplefilter('ignore')
+import logging  # noqa: E402
+logging.disable(logging.CRITICAL)
 
 
 def main():
@@ -51,7 +53,19 @@ def main():
     except common.InfraError as e:
         print(f'INFRASTRUCTURE ERROR: {e}')
         return 2
-    except Exception:
+    except Exception as e:
+        tb = traceback.extract_tb(e.__traceback__)
+        src = os.path.join(common.REPO, 'src')
+        if any(fr.filename.startswith(src) for fr in tb) and not args.replay:
+            # the implementation raised on an input the harness considers valid: a disagreement, not an infrastructure error
+            text = ''.join(traceback.format_exception(type(e), e, e.__traceback__))
+            ctx.violation(f'implementation-raises:{type(e).__name__}',
+                          {'impl': f'{type(e).__name__}: {e}', 'traceback_tail': text[-2500:],
+                           'note': 'the implementation raised while the harness was driving it with an input it considers valid'},
+                          no_input=False)
+            ctx.rule = getattr(mod, 'RULE', '')
+            print(text[-1200:])
+            return ctx.finish()
         traceback.print_exc()
         print('INFRASTRUCTURE ERROR: the check crashed')
         return 2
